@@ -237,6 +237,22 @@ func roundTrip(c *h.Ctx, alg keys.Alg, k *keys.Key) (did.DID, bool) {
 	if !pk.Equals(k.Pub) {
 		c.Fail("C16/roundtrip/pubkey-differs/"+string(alg), "PubKey() of the DID built from a %s key is a different key", alg)
 	}
+	// the extracted key is a value like any other key: turned into a DID - twice - it gives the DID it came from, and
+	// it is still the key it was (conversion reads the key, it does not use it as scratch space)
+	for pass := 1; pass <= 2; pass++ {
+		back, berr := did.FromPubKey(pk)
+		if berr != nil || back != d {
+			c.Fail("C16/roundtrip/extracted-key-to-did/"+string(alg), "FromPubKey (call %d) of the key extracted from %s gives %s (%v)", pass, s, back, berr)
+			break
+		}
+		if !pk.Equals(k.Pub) {
+			c.Fail("C16/roundtrip/extracted-key-changed/"+string(alg), "after FromPubKey (call %d) the key extracted from %s is no longer equal to the original key", pass, s)
+			break
+		}
+	}
+	if pk3, err3 := d2.PubKey(); err3 != nil || !pk3.Equals(k.Pub) {
+		c.Fail("C16/roundtrip/pubkey-differs/"+string(alg), "a second PubKey() of %s gives another key (%v)", s, err3)
+	}
 	if pk2, err := did.ToPubKey(s); err != nil || !pk2.Equals(k.Pub) {
 		c.Fail("C16/roundtrip/topubkey/"+string(alg), "ToPubKey(%s) failed or returned another key: %v", s, err)
 	}
